@@ -26,7 +26,7 @@ case "$suite" in *"100% tests passed"*) ;; *) ok=1;; esac
 if [ $ok -ne 0 ]; then echo "NOT CONFIRMED"; exit 1; fi
 d=/verif/seeded/$name; mkdir -p $d
 cp _scratch/patch.confirm.diff $d/patch.diff
-for f in demo.cc demo.sh notes.md; do [ -f _scratch/$f ] && cp _scratch/$f $d/; done
+for f in _scratch/*.cc _scratch/*.sh _scratch/*.md; do [ -f $f ] && cp $f $d/; done
 cat > $d/meta.json <<EOM
 {"property": "$prop", "seed": "$name",
  "confirmed": {"suite_with_change": "$suite", "demo_exit_with_change": "$with", "demo_exit_without_change": "$without",
